@@ -37,6 +37,7 @@ type RunSpec struct {
 	Readers     int       `json:"readers"`
 	ReadsEach   int       `json:"reads_each"`
 	SleepMaxUS  int       `json:"sleep_max_us"` // hook sleeps 0..max at every point
+	ReadGapUS   int       `json:"read_gap_us"`  // pause between the reads of one reader (0 = none)
 	Seed        uint64    `json:"seed"`
 	Out         string    `json:"out"`
 	SharedCache bool      `json:"shared_cache"` // one FileCache value for all clients, else one per client
